@@ -606,7 +606,7 @@ def sources_to_file(sources, path, max_units=6000):
     bad = []
     for s in sources:
         try:
-            code = compile(s["src"], "<verif>", s.get("mode", "exec"), dont_inherit=True, optimize=s.get("optimize", 0))
+            code = cpy.compile_source(s)
         except Exception as e:
             bad.append([s["id"], "%s: %s" % (type(e).__name__, e)])
             continue
